@@ -28,12 +28,13 @@ VERIF_FAIL = [
     (r"invariant not satisfied", "invariant"),
     (r"decreases not satisfied", "termination"),
     (r"could not prove termination", "termination"),
-    (r"loop must have a decreases clause|must have a decreases clause", "termination_missing"),
     (r"bit.?vector.*(fail|not)", "bit_vector"),
     (r"assert_by|assertion by", "assertion"),
     (r"unreachable|panic", "panic"),
 ]
-UNDECIDED_MSG = [r"[Rr]esource limit", r"rlimit", r"timed? ?out"]
+# a loop/recursion the overlay gives no measure for (e.g. a `for` rewritten as `while`) is a missing
+# annotation, not a refuted obligation
+UNDECIDED_MSG = [r"[Rr]esource limit", r"rlimit", r"timed? ?out", r"must have a decreases clause"]
 IGNORE_MSG = [r"^aborting due to", r"^For more information"]
 
 
